@@ -23,6 +23,38 @@ class E2(Exception):
         return "E2<%s>" % (self.args,)
 
 
+class E3(Exception):
+    """__slots__ and a constructor with two required arguments."""
+    __slots__ = ("a", "b")
+
+    def __init__(self, a, b):
+        super().__init__(a, b)
+        self.a = a
+        self.b = b
+
+
+class E4(KeyError):
+    """A lookup-type exception with its own __str__."""
+
+    def __str__(self):
+        return "E4!"
+
+
+class E5(OSError, ValueError):
+    """Two builtin bases (a ValueError, so a pipe moves on)."""
+
+
+class E6(Exception):
+    """Keyword-only constructor, custom __reduce__, extra attribute."""
+
+    def __init__(self, *, code):
+        super().__init__(code)
+        self.code = code
+
+    def __reduce__(self):
+        return (E6, (), {"code": self.code})
+
+
 class Abort(BaseException):
     """Outside the Exception hierarchy."""
 
@@ -51,6 +83,12 @@ ZOO = {
     "RecursionError": lambda: RecursionError("too deep"),
     "E1": lambda: E1("e1-a", "e1-b"),
     "E2": lambda: E2("e2-a", 2),
+    "E3": lambda: E3("e3-a", 33),
+    "E4": lambda: E4("e4-key"),
+    "E5": lambda: E5(3, "e5-msg"),
+    "E6": lambda: E6(code=7),
+    "FileNotFoundError": lambda: FileNotFoundError(2, "nf", "some/file"),
+    "SyntaxError": lambda: SyntaxError("bad", ("f.py", 1, 2, "txt")),
     # outside Exception
     "KeyboardInterrupt": lambda: KeyboardInterrupt(),
     "SystemExit": lambda: SystemExit(3),
@@ -65,7 +103,9 @@ ZOO_CLASSES = {
     "ZeroDivisionError": ZeroDivisionError, "RuntimeError": RuntimeError,
     "OSError": OSError, "AssertionError": AssertionError,
     "MemoryError": MemoryError, "StopIteration": StopIteration,
-    "RecursionError": RecursionError, "E1": E1, "E2": E2,
+    "RecursionError": RecursionError, "E1": E1, "E2": E2, "E3": E3,
+    "E4": E4, "E5": E5, "E6": E6, "FileNotFoundError": FileNotFoundError,
+    "SyntaxError": SyntaxError,
     "KeyboardInterrupt": KeyboardInterrupt, "SystemExit": SystemExit,
     "GeneratorExit": GeneratorExit, "Abort": Abort,
 }
@@ -73,10 +113,11 @@ PIPE_CAUGHT = (AttributeError, NameError, LookupError, TypeError, ValueError)
 EXISTS_CAUGHT = (AttributeError, LookupError, TypeError, NameError)
 CAUGHT_NAMES = ["AttributeError", "NameError", "KeyError", "IndexError",
                 "LookupError", "TypeError", "ValueError",
-                "UnicodeDecodeError"]
+                "UnicodeDecodeError", "E4", "E5"]
 UNCAUGHT_NAMES = ["ZeroDivisionError", "RuntimeError", "OSError",
                   "AssertionError", "MemoryError", "StopIteration", "E1",
-                  "E2", "RecursionError"]
+                  "E2", "RecursionError", "E3", "E6", "FileNotFoundError",
+                  "SyntaxError"]
 NONEXC_NAMES = ["KeyboardInterrupt", "SystemExit", "GeneratorExit", "Abort"]
 
 
